@@ -173,19 +173,17 @@ class Polynomial_FCN(Model):
 
     def forward(self, points):
         points = self._fix_points_order(points).as_tensor
-        batch_dim = len(points)
         for i in range(len(self.layers)):
+            # shape (*batch, in, 1); the coefficients (in, out) broadcast over all
+            # batch axes, so that every row is mapped on its own
             points = points.unsqueeze(-1)
             out = self.layers[i][:, :, self.polynomial_degree-1] / self.polynomial_degree
-            out = out.unsqueeze(0).expand((batch_dim, self.layers[i].shape[0], self.layers[i].shape[1]))
-            
-            for j in range(self.polynomial_degree, 0, -1):
-                reshaped_layer = self.layers[i][:, :, j-1].unsqueeze(0).expand(
-                                    (batch_dim, self.layers[i].shape[0], self.layers[i].shape[1]))
-                out = (points * out + reshaped_layer / (max(1, j-1)))
-            
 
-            out = torch.sum(out, dim=1)
+            for j in range(self.polynomial_degree, 0, -1):
+                out = (points * out + self.layers[i][:, :, j-1] / (max(1, j-1)))
+
+            # sum over the input features (not over a batch axis)
+            out = torch.sum(out, dim=-2)
             if self.res_con and i < len(self.layers) - 1 and i > 0:
                 points = self.activation_fn(out) + points.squeeze(-1)
             else:
